@@ -34,7 +34,7 @@ MASK_INVARIANTS = ("MaskUpClosed", "FullAcceptsReachable", "ZeroMasksAll")
 # ------------------------------------------------------------------ design level
 def design_runs(chk, thorough):
     r = vlib.tlc_must_pass("Sesans", "Sesans_big.cfg" if thorough else "Sesans.cfg", timeout=3000)
-    chk.add_tlc(r, "Sesans exhaustive (%s)" % ("MaxXi=7, MaxN=4" if thorough else "MaxXi=5, MaxN=3"))
+    chk.add_tlc(r, "Sesans exhaustive (%s)" % ("MaxXi=6, MaxN=4" if thorough else "MaxXi=5, MaxN=3"))
     if r["violated"]:
         chk.design_violation(r, "Sesans", {"class": "design"})
     w = vlib.tlc("Sesans", "Sesans_invertedMask.cfg", timeout=1200)
@@ -124,8 +124,9 @@ def make_scenarios(chk, lat):
     scen = []
     tid = 0
     if thorough:
-        plan = [("transform", r, v) for r in lat["LATTICE"] for v in (0, 1)]
-        plan += [("dm", r, v) for r in lat["DMLATTICE"] for v in (0, 1) if v == 0 or r["model"] == "guinier"]
+        # every record canonically; every second one also with seeded jitter of size and span
+        plan = [("transform", r, v) for i, r in enumerate(lat["LATTICE"]) for v in (0, 1) if v == 0 or i % 2 == 0]
+        plan += [("dm", r, v) for i, r in enumerate(lat["DMLATTICE"]) for v in (0, 1) if v == 0 or i % 4 == 0]
     else:
         plan = [("transform", r, i % 2) for i, r in enumerate(cover_then_fill(lat["LATTICE"], 56, rng))]
         plan += [("dm", r, i % 2) for i, r in enumerate(cover_then_fill(lat["DMLATTICE"], 24, rng))]
